@@ -70,6 +70,13 @@ class Empty(object):
         return 0
 
 
+def make_row_class():
+    class Row(object):
+        def __init__(self):
+            self.v = 1
+    return Row
+
+
 def a_function(x=1):
     return x + 1
 
@@ -270,6 +277,13 @@ def run_histories(chk, g, rnd, max_paths):
         a, b = fx.pair.a, fx.pair.b
         # the objects are true or false, built-in or not: identity must not depend on what the object says about itself
         fx.objs = {"o1": [[1], [], Falsy(), set()][pi % 4], "o2": [{"k": 2}, {}, Empty(), bytearray()][(pi // 2) % 4]}
+        if pi % 5 == 4:
+            # two distinct classes that say the same about themselves (module, name): made twice by one factory
+            fx.objs = {"o1": make_row_class(), "o2": make_row_class()}
+        elif pi % 5 == 3 and pi % 2:
+            # a class and an instance of it: their identifiers differ in the instance part only
+            cls = make_row_class()
+            fx.objs = {"o1": cls, "o2": cls()}
         labels = []
         try:
             cur = path[0]
@@ -292,6 +306,9 @@ def run_histories(chk, g, rnd, max_paths):
                     elif before and any(h is not before[0] for h in handles):
                         chk.violation("hist:second-proxy", "C03 after %s: the same remote object received again while its proxy is "
                                       "alive is a different proxy object" % labels, {"mode": "history", "labels": labels})
+                    elif any(fx.kept.get(p) and fx.kept[p][0] is handles[0] for p in fx.objs if p != o):
+                        chk.violation("hist:shared-proxy", "C03 after %s: two different remote objects are represented by one proxy"
+                                      % labels, {"mode": "history", "labels": labels})
                     elif len({id(h) for h in handles}) != 1:
                         chk.violation("hist:second-proxy", "C03 after %s: two occurrences of one object in a tuple became two proxies"
                                       % labels, {"mode": "history", "labels": labels})
